@@ -1,4 +1,24 @@
-(* placeholder so that the pipeline can be exercised; replaced by the real theorems *)
-From SV Require Import Names Rep.
-Theorem C19_placeholder : True. Proof. exact I. Qed.
-Print Assumptions C19_placeholder.
+(* C19 -- Euler characteristic and Euler integral.  Theorem statements only; proofs in EulerP.v.
+   Proved: the Euler characteristic is the alternating sum of the per-order counts (definition of
+   the model, checked against the code by the correspondence) and equals the alternating sum of
+   the Betti numbers (telescoping of GF(2) ranks).  Tested only: the level-set and simplex-wise
+   formulas of the Euler integral (they rest on the effect of restrictBasisTo, C02). *)
+From Coq Require Import ZArith List.
+From mathcomp Require Import all_ssreflect all_algebra.
+From SV Require Import Names Rep Complex Homology ListMat SnfCount Rank Betti EulerP.
+
+Theorem C19_chi_def : forall r, eulerCharacteristic r = alt_sum (Zpos xH) (numberOfSimplicesOfOrder r).
+Proof. reflexivity. Qed.
+Print Assumptions C19_chi_def.
+
+Theorem C19_euler_poincare :
+  forall r, alt_sumZ (Zpos xH) (List.map (betti1 r) (List.seq 0 (r_nord r))) =
+            alt_sumZ (Zpos xH) (List.map (fun k => Z.of_nat (ncols (boundaryOperator r k))) (List.seq 0 (r_nord r))).
+Proof. exact euler_poincare. Qed.
+Print Assumptions C19_euler_poincare.
+
+Theorem C19_chi_betti_partial :
+  forall r, (forall k, (k < r_nord r)%coq_nat -> ncols (boundaryOperator r k) = length (simplicesOfOrder r k)) ->
+  eulerCharacteristic r = alt_sumZ (Zpos xH) (List.map (betti1 r) (List.seq 0 (r_nord r))).
+Proof. exact euler_characteristic_is_alt_betti. Qed.
+Print Assumptions C19_chi_betti_partial.
